@@ -154,6 +154,10 @@ func loadProgram(repo, hdir string, extraPkgs []string) (*Engine, error) {
 	e.redirects["github.com/google/gopacket/layers.tcpipChecksum"] = verifPkg + ".ModelTcpipChecksum"
 	e.redirects["github.com/google/gopacket/layers.checksum"] = verifPkg + ".ModelIPv4Checksum"
 	e.redirects["(*net/http.Client).Do"] = modPath + "/publicip.vClientDo"
+	e.redirects["(*os.File).Read"] = modPath + "/packets.vFileRead" // model AF_PACKET socket (C09 frame level)
+	e.redirects["syscall.Recvfrom"] = modPath + "/packets.vRecvfrom" // model socket behind SetBPFAndDrain (C10)
+	e.redirects["golang.org/x/sys/unix.SetsockoptSockFprog"] = modPath + "/packets.vSetsockoptSockFprog"
+	e.redirects["syscall.SetsockoptInt"] = modPath + "/packets.vSetsockoptInt"
 	e.redirects["context.Background"] = verifPkg + ".CtxBackground"
 	e.redirects["context.TODO"] = verifPkg + ".CtxBackground"
 	e.redirects["context.WithCancel"] = verifPkg + ".CtxWithCancel"
